@@ -383,5 +383,402 @@ theorem Flags.join_after_skip (f o' : Flags) (t : Token) (h : f.wants t = false)
     (f.join o').after t = f.join (o'.after t) := by
   cases t <;> simp only [Flags.wants] at h <;> simp [Flags.after, Flags.join, h]
 
+
+/-! ### the dispatcher steps, relationally -/
+
+theorem ObsR0.mk' {fS : Flags} {d' : Disp (γ × Flags)} {d : Disp γ} {c' : γ × Flags} {c : γ} {v' v : DView}
+    (hc' : d'.ctl = c') (hc : d.ctl = c) (hv' : d'.view = v') (hv : d.view = v) (h : ObsV fS c' c v' v) :
+    ObsR0 fS d' d := by
+  unfold ObsR0; rw [hc', hc, hv', hv]; exact h
+
+theorem ObsR.mk' {d' : Disp (γ × Flags)} {d : Disp γ} {c' : γ × Flags} {c : γ} {v' v : DView}
+    (hc' : d'.ctl = c') (hc : d.ctl = c) (hv' : d'.view = v') (hv : d.view = v) (h : ObsV v.flags c' c v' v) :
+    ObsR d' d := by
+  have : d.flags = v.flags := by rw [← hv]; rfl
+  unfold ObsR; rw [this]; exact ObsR0.mk' hc' hc hv' hv h
+
+theorem flush_obs {d' : Disp (γ × Flags)} {d : Disp γ} (h : ObsR d' d) :
+    (d'.flushPendingText (withObs H o)).2 = (d.flushPendingText H).2 ∧
+    ObsR (d'.flushPendingText (withObs H o)).1 (d.flushPendingText H).1 ∧
+    (d.flushPendingText H).1.textPending = false ∧ (d'.flushPendingText (withObs H o)).1.textPending = false := by
+  have hc := h.ctl
+  rcases flushPendingText_spec H d with ⟨hd, he⟩ | ⟨hd, hres, hctl, hview⟩
+  · rw [he]
+    rcases flushPendingText_spec (withObs H o) d' with ⟨hd', he'⟩ | ⟨hd', hres', hctl', hview'⟩
+    · rw [he']; exact ⟨rfl, h, hd, hd'⟩
+    · have hft : d.flags.text = false := h.tp' hd hd'
+      rw [hc] at hres' hctl'
+      rw [tokRes_skip _ _ _ (by simpa [Flags.wants] using hft)] at hres'
+      rw [withObs_token_skip _ _ _ (by simpa [Flags.wants] using hft)] at hctl'
+      refine ⟨hres', ?_, hd, ?_⟩
+      · refine ObsR.mk' hctl' rfl hview' rfl ?_
+        exact ⟨rfl, h.flags, h.sticky, h.emis, h.gf', h.gf, h.pa', h.pa,
+          fun hh => (by rw [show d.view.tp = d.textPending from rfl, hd] at hh; cases hh), fun _ hh => (by cases hh), h.rcs⟩
+      · have : (d'.flushPendingText (withObs H o)).1.textPending = (d'.flushPendingText (withObs H o)).1.view.tp := rfl
+        rw [this, hview']
+  · obtain ⟨t1, t2, t3, t4⟩ := h.tp hd
+    rcases flushPendingText_spec (withObs H o) d' with ⟨hd', he'⟩ | ⟨hd', hres', hctl', hview'⟩
+    · rw [show d'.view.tp = d'.textPending from rfl, hd'] at t1; cases t1
+    · have e2 : d'.lastTextType = d.lastTextType := t3
+      have e3 : d'.textPendingStart = d.textPendingStart := t2
+      rw [e2, e3, hc] at hres' hctl'
+      have hw : d.flags.wants (.text [] d.lastTextType true ⟨d.textPendingStart, d.textPendingStart⟩) = true := by
+        have t4' : d.flags.text = true := t4
+        simpa [Flags.wants] using t4'
+      rw [tokRes_wants _ _ _ hw] at hres'
+      rw [withObs_token_wants _ _ _ hw] at hctl'
+      refine ⟨by rw [hres', hres], ?_, ?_, ?_⟩
+      · refine ObsR.mk' hctl' hctl hview' hview ?_
+        exact ⟨rfl, h.flags, h.sticky, h.emis, h.gf', h.gf, h.pa', h.pa,
+          fun hh => (by cases hh), fun _ hh => (by cases hh), h.rcs⟩
+      · have : (d.flushPendingText H).1.textPending = (d.flushPendingText H).1.view.tp := rfl
+        rw [this, hview]
+      · have : (d'.flushPendingText (withObs H o)).1.textPending = (d'.flushPendingText (withObs H o)).1.view.tp := rfl
+        rw [this, hview']
+
+theorem before_mono {fS : Flags} {d' : Disp (γ × Flags)} {d : Disp γ} (h : ObsR0 fS d' d) {raw : Range}
+    (hb : d'.before inp raw) : d.before inp raw := by
+  have : d.rcs ≤ d'.rcs := h.rcs
+  exact ⟨by have := hb.1; omega, hb.2⟩
+
+/-- a token both runs hand to `H` -/
+theorem emitToken_both {fS : Flags} {d' : Disp (γ × Flags)} {d : Disp γ} (h : ObsR0 fS d' d) (raw : Range) (t : Token)
+    (hw : fS.wants t = true) :
+    IsPanic (d'.emitToken (withObs H o) inp raw t).2 ∨
+    ((d'.emitToken (withObs H o) inp raw t).2 = (d.emitToken H inp raw t).2 ∧
+      ((d.emitToken H inp raw t).2 = .ok () →
+        ObsR0 (fS.after t) (d'.emitToken (withObs H o) inp raw t).1 (d.emitToken H inp raw t).1 ∧
+        (d.emitToken H inp raw t).1.view = { d.view with rcs := raw.end })) := by
+  have hc := h.ctl
+  rcases emitToken_spec (withObs H o) d' inp raw t with ⟨_, hp⟩ | ⟨hb', hres', hpost'⟩
+  · exact Or.inl hp
+  · right
+    rcases emitToken_spec H d inp raw t with ⟨hnb, _⟩ | ⟨hb, hres, hpost⟩
+    · exact absurd (before_mono h hb') hnb
+    · rw [hc, tokRes_wants _ _ _ hw] at hres'
+      refine ⟨by rw [hres', hres], fun hok => ?_⟩
+      rw [hres] at hok
+      obtain ⟨p1, p2⟩ := hpost hok
+      have hok' : tokRes (withObs H o) d'.ctl t = .ok () := by rw [hc, tokRes_wants _ _ _ hw]; exact hok
+      obtain ⟨q1, q2⟩ := hpost' hok'
+      rw [hc, withObs_token_wants _ _ _ hw] at q1
+      refine ⟨ObsR0.mk' q1 p1 q2 p2 ?_, p2⟩
+      exact ⟨rfl, h.flags, h.sticky, h.emis, h.gf', h.gf, h.pa', h.pa, h.tp, h.tp', Nat.le_refl _⟩
+
+/-- a token only the observers asked for -/
+theorem emitToken_only {fS : Flags} {d' : Disp (γ × Flags)} {d : Disp γ} (h : ObsR0 fS d' d) (raw : Range) (t : Token)
+    (hw : fS.wants t = false) (hraw : raw.start ≤ raw.end) :
+    IsPanic (d'.emitToken (withObs H o) inp raw t).2 ∨
+    ((d'.emitToken (withObs H o) inp raw t).2 = .ok () ∧ ObsR0 fS (d'.emitToken (withObs H o) inp raw t).1 d ∧
+      (d'.emitToken (withObs H o) inp raw t).1.view = { d'.view with rcs := raw.end }) := by
+  have hc := h.ctl
+  rcases emitToken_spec (withObs H o) d' inp raw t with ⟨_, hp⟩ | ⟨hb', hres', hpost'⟩
+  · exact Or.inl hp
+  · right
+    rw [hc, tokRes_skip _ _ _ hw] at hres'
+    have hok' : tokRes (withObs H o) d'.ctl t = .ok () := by rw [hc, tokRes_skip _ _ _ hw]
+    obtain ⟨q1, q2⟩ := hpost' hok'
+    rw [hc, withObs_token_skip _ _ _ hw] at q1
+    refine ⟨hres', ObsR0.mk' q1 rfl q2 rfl ?_, q2⟩
+    have h1 : d.rcs ≤ d'.rcs := h.rcs
+    have h2 := hb'.1
+    exact ⟨rfl, h.flags, h.sticky, h.emis, h.gf', h.gf, h.pa', h.pa, h.tp, h.tp', by show d.rcs ≤ raw.end; omega⟩
+
+
+theorem ObsV.setFlags {fS : Flags} {c' : γ × Flags} {c : γ} {v' v : DView} (h : ObsV fS c' c v' v) (f1 f1' : Flags)
+    (hj : ∃ o1, f1' = f1.join o1) (hs : f1.sticky = v.flags.sticky) (ht : f1.text = v.flags.text) :
+    ObsV fS c' c { v' with flags := f1' } { v with flags := f1 } :=
+  ⟨h.ctl, hj, by show f1.sticky = true; rw [hs]; exact h.sticky, h.emis, h.gf', h.gf, h.pa', h.pa,
+    fun hh => by
+      obtain ⟨a, b, c, d⟩ := h.tp hh
+      exact ⟨a, b, c, by show f1.text = true; rw [ht]; exact d⟩,
+    fun h1 h2 => by show f1.text = false; rw [ht]; exact h.tp' h1 h2, h.rcs⟩
+
+theorem produceTag_obs {d' : Disp (γ × Flags)} {d : Disp γ} (h : ObsR d' d) (lx : TagLexeme) :
+    DRelO (d'.produceTag (withObs H o) inp lx) (d.produceTag H inp lx) := by
+  obtain ⟨o', hfl⟩ := h.flags
+  have hfl' : d'.flags = d.flags.join o' := hfl
+  unfold Disp.produceTag
+  rw [tagToToken_eq, tagToToken_eq, hfl']
+  cases hwH : tagWanted d.flags lx with
+  | true =>
+    have hwO := tagWanted_join (o' := o') hwH
+    simp only [hwO, if_true]
+    cases htok : tagTok inp lx with
+    | none => left; exact ⟨_, rfl⟩
+    | some t =>
+      simp only [Option.map_some]
+      obtain ⟨hw, _⟩ := tagTok_facts htok d.flags
+      rw [hwH] at hw
+      have h1 : ObsR0 d.flags ({ d' with flags := (d.flags.join o').after t } : Disp (γ × Flags)) ({ d with flags := d.flags.after t } : Disp γ) := by
+        refine ObsR0.mk' (c' := d'.ctl) (c := d.ctl) (v' := { d'.view with flags := (d.flags.join o').after t })
+          (v := { d.view with flags := d.flags.after t }) rfl rfl rfl rfl ?_
+        exact ObsV.setFlags h _ _ ⟨o'.after t, Flags.join_after _ _ _⟩ (Flags.after_sticky _ _) (Flags.after_text' _ _)
+      rcases emitToken_both (H := H) (o := o) (inp := inp) h1 lx.raw t hw with hp | ⟨e1, e2⟩
+      · exact Or.inl hp
+      · right
+        refine ⟨e1, fun a ha => ?_⟩
+        obtain ⟨r1, r2⟩ := e2 ha
+        have : (Disp.emitToken H ({ d with flags := d.flags.after t } : Disp γ) inp lx.raw t).1.flags = d.flags.after t := by
+          exact congrArg DView.flags r2
+        unfold ObsR
+        rw [this]
+        exact r1
+  | false =>
+    simp only [Bool.false_eq_true, if_false]
+    cases hwO : tagWanted (d.flags.join o') lx with
+    | false =>
+      simp only [Bool.false_eq_true, if_false]
+      right
+      refine ⟨rfl, fun _ _ => ?_⟩
+      have e1 : ({ d' with flags := d.flags.join o' } : Disp (γ × Flags)) = d' := by rw [← hfl']
+      have e2 : ({ d with flags := d.flags } : Disp γ) = d := rfl
+      rw [e1, e2]
+      exact h
+    | true =>
+      simp only [if_true]
+      have e2 : ({ d with flags := d.flags } : Disp γ) = d := rfl
+      rw [e2]
+      cases htok : tagTok inp lx with
+      | none => left; exact ⟨_, rfl⟩
+      | some t =>
+        simp only [Option.map_some]
+        obtain ⟨hw, hraw⟩ := tagTok_facts htok d.flags
+        rw [hwH] at hw
+        have h1 : ObsR0 d.flags ({ d' with flags := (d.flags.join o').after t } : Disp (γ × Flags)) d := by
+          refine ObsR0.mk' (c' := d'.ctl) (c := d.ctl) (v' := { d'.view with flags := (d.flags.join o').after t })
+            (v := { d.view with flags := d.flags }) rfl rfl rfl rfl ?_
+          exact ObsV.setFlags h _ _ ⟨o'.after t, Flags.join_after_skip _ _ _ hw⟩ rfl rfl
+        rcases emitToken_only (H := H) (o := o) (inp := inp) h1 lx.raw t hw hraw with hp | ⟨e1, e3, _⟩
+        · exact Or.inl hp
+        · right
+          exact ⟨e1, fun _ _ => e3⟩
+
+
+/-! ### non-tag lexemes -/
+
+def ntWanted (g : Flags) (lx : NonTagLexeme) : Bool :=
+  match lx.outline with
+  | some (.comment _) => g.comments
+  | some (.doctype _) => g.doctypes
+  | _ => false
+
+def ntTok (inp : Bytes) (lx : NonTagLexeme) : Option Token :=
+  match lx.outline with
+  | some (.comment text) =>
+    match checkedSlice inp text, checkedSlice inp lx.raw with
+    | some t, some raw => some (.comment t raw (srcOf lx.prevConsumed lx.raw))
+    | _, _ => none
+  | some (.doctype dt) =>
+    match checkedSlice inp lx.raw with
+    | some raw => some (.doctype (dt.name.bind (checkedSlice inp)) (dt.publicId.bind (checkedSlice inp))
+        (dt.systemId.bind (checkedSlice inp)) dt.forceQuirks raw (srcOf lx.prevConsumed lx.raw))
+    | none => none
+  | _ => none
+
+theorem nonTagToToken_eq (g : Flags) (inp : Bytes) (lx : NonTagLexeme) :
+    nonTagToToken g inp lx = if ntWanted g lx then (ntTok inp lx).map some else some none := by
+  unfold nonTagToToken ntWanted ntTok
+  cases lx.outline with
+  | none => rfl
+  | some ol =>
+    cases ol with
+    | text tt => rfl
+    | eof => rfl
+    | comment text =>
+      dsimp only
+      cases g.comments with
+      | false => rfl
+      | true =>
+        simp only [if_true]
+        cases checkedSlice inp text <;> cases checkedSlice inp lx.raw <;> rfl
+    | doctype dt =>
+      dsimp only
+      cases g.doctypes with
+      | false => rfl
+      | true =>
+        simp only [if_true]
+        cases checkedSlice inp lx.raw <;> rfl
+
+theorem ntTok_facts {inp : Bytes} {lx : NonTagLexeme} {t : Token} (h : ntTok inp lx = some t) (g : Flags) :
+    g.wants t = ntWanted g lx ∧ lx.raw.start ≤ lx.raw.end := by
+  unfold ntTok at h
+  unfold ntWanted
+  cases ho : lx.outline with
+  | none => rw [ho] at h; cases h
+  | some ol =>
+    rw [ho] at h
+    cases ol with
+    | text tt => cases h
+    | eof => cases h
+    | comment text =>
+      dsimp only at h ⊢
+      cases h1 : checkedSlice inp text <;> cases h3 : checkedSlice inp lx.raw <;> simp only [h1, h3] at h
+      all_goals first
+        | (cases h; done)
+        | (simp only [Option.some.injEq] at h; subst h; exact ⟨rfl, checkedSlice_le h3⟩)
+    | doctype dt =>
+      dsimp only at h ⊢
+      cases h3 : checkedSlice inp lx.raw <;> simp only [h3] at h
+      all_goals first
+        | (cases h; done)
+        | (simp only [Option.some.injEq] at h; subst h; exact ⟨rfl, checkedSlice_le h3⟩)
+
+theorem ntWanted_join {f o' : Flags} {lx : NonTagLexeme} (h : ntWanted f lx = true) : ntWanted (f.join o') lx = true := by
+  unfold ntWanted at *
+  cases ho : lx.outline with
+  | none => rw [ho] at h; cases h
+  | some ol =>
+    rw [ho] at h
+    cases ol <;> simp only [Flags.join] at * <;> simp_all
+
+theorem Flags.after_nt {inp : Bytes} {lx : NonTagLexeme} {t : Token} (h : ntTok inp lx = some t) (f : Flags) : f.after t = f := by
+  unfold ntTok at h
+  cases ho : lx.outline with
+  | none => rw [ho] at h; cases h
+  | some ol =>
+    rw [ho] at h
+    cases ol with
+    | text tt => cases h
+    | eof => cases h
+    | comment text =>
+      dsimp only at h
+      cases h1 : checkedSlice inp text <;> cases h3 : checkedSlice inp lx.raw <;> simp only [h1, h3] at h
+      all_goals first
+        | (cases h; done)
+        | (simp only [Option.some.injEq] at h; subst h; rfl)
+    | doctype dt =>
+      dsimp only at h
+      cases h3 : checkedSlice inp lx.raw <;> simp only [h3] at h
+      all_goals first
+        | (cases h; done)
+        | (simp only [Option.some.injEq] at h; subst h; rfl)
+
+theorem produceText_obs {d' : Disp (γ × Flags)} {d : Disp γ} (h : ObsR d' d) (lx : NonTagLexeme) (tt : TextType) :
+    DRelO (if d'.flags.text then d'.produceText (withObs H o) inp lx tt else (d', .ok ()))
+      (if d.flags.text then d.produceText H inp lx tt else (d, .ok ())) := by
+  obtain ⟨o', hfl⟩ := h.flags
+  have hfl' : d'.flags = d.flags.join o' := hfl
+  have hc := h.ctl
+  cases hfT : d.flags.text with
+  | true =>
+    have : d'.flags.text = true := by rw [hfl']; simp [Flags.join, hfT]
+    rw [this]
+    simp only [if_true]
+    rcases produceText_spec (withObs H o) d' inp lx tt with ⟨_, hp⟩ | ⟨raw, hraw, hrest'⟩
+    · exact Or.inl hp
+    · rcases hrest' with ⟨_, hp⟩ | ⟨hb', hres', hpost'⟩
+      · exact Or.inl hp
+      · right
+        rcases produceText_spec H d inp lx tt with ⟨hn, _⟩ | ⟨raw2, hraw2, hrest⟩
+        · rw [hraw] at hn; cases hn
+        · rw [hraw] at hraw2
+          simp only [Option.some.injEq] at hraw2
+          subst hraw2
+          rcases hrest with ⟨hnb, _⟩ | ⟨hb, hres, hpost⟩
+          · exact absurd (before_mono h hb') hnb
+          · have hw : d.flags.wants (.text raw tt false (srcOf lx.prevConsumed lx.raw)) = true := by
+              simpa [Flags.wants] using hfT
+            rw [hc, tokRes_wants _ _ _ hw] at hres'
+            refine ⟨by rw [hres', hres], fun a ha => ?_⟩
+            rw [hres] at ha
+            have hok : tokRes H d.ctl (.text raw tt false (srcOf lx.prevConsumed lx.raw)) = .ok () := by
+              cases a; exact ha
+            obtain ⟨p1, p2⟩ := hpost hok
+            have hok' : tokRes (withObs H o) d'.ctl (.text raw tt false (srcOf lx.prevConsumed lx.raw)) = .ok () := by
+              rw [hc, tokRes_wants _ _ _ hw]; exact hok
+            obtain ⟨q1, q2⟩ := hpost' hok'
+            rw [hc, withObs_token_wants _ _ _ hw] at q1
+            refine ObsR.mk' q1 p1 q2 p2 ?_
+            exact ⟨rfl, h.flags, h.sticky, h.emis, h.gf', h.gf, h.pa', h.pa,
+              fun _ => ⟨rfl, rfl, rfl, hfT⟩, fun hh => (by cases hh), Nat.le_refl _⟩
+  | false =>
+    simp only [Bool.false_eq_true, if_false]
+    cases hfO : d'.flags.text with
+    | false => simp only [Bool.false_eq_true, if_false]; right; exact ⟨rfl, fun _ _ => h⟩
+    | true =>
+      simp only [if_true]
+      rcases produceText_spec (withObs H o) d' inp lx tt with ⟨_, hp⟩ | ⟨raw, hraw, hrest'⟩
+      · exact Or.inl hp
+      · rcases hrest' with ⟨_, hp⟩ | ⟨hb', hres', hpost'⟩
+        · exact Or.inl hp
+        · right
+          have hw : d.flags.wants (.text raw tt false (srcOf lx.prevConsumed lx.raw)) = false := by
+            simpa [Flags.wants] using hfT
+          rw [hc, tokRes_skip _ _ _ hw] at hres'
+          have hok' : tokRes (withObs H o) d'.ctl (.text raw tt false (srcOf lx.prevConsumed lx.raw)) = .ok () := by
+            rw [hc, tokRes_skip _ _ _ hw]
+          obtain ⟨q1, q2⟩ := hpost' hok'
+          rw [hc, withObs_token_skip _ _ _ hw] at q1
+          refine ⟨hres', fun _ _ => ?_⟩
+          refine ObsR.mk' q1 rfl q2 rfl ?_
+          have hdtp : d.view.tp = false := by
+            cases hh : d.view.tp with
+            | false => rfl
+            | true =>
+              have := (h.tp hh).2.2.2
+              have hfT' : d.view.flags.text = false := hfT
+              rw [hfT'] at this; cases this
+          have h1 : d.rcs ≤ d'.rcs := h.rcs
+          have h2 := hb'.1
+          have h3 := checkedSlice_le hraw
+          exact ⟨rfl, h.flags, h.sticky, h.emis, h.gf', h.gf, h.pa', h.pa,
+            fun hh => (by rw [hdtp] at hh; cases hh), fun _ _ => hfT, by show d.rcs ≤ lx.raw.end; omega⟩
+
+theorem produceNonTag_obs {d' : Disp (γ × Flags)} {d : Disp γ} (h : ObsR d' d) (lx : NonTagLexeme) :
+    DRelO (d'.produceNonTag (withObs H o) inp lx) (d.produceNonTag H inp lx) := by
+  obtain ⟨o', hfl⟩ := h.flags
+  have hfl' : d'.flags = d.flags.join o' := hfl
+  unfold Disp.produceNonTag
+  cases hol : lx.outline with
+  | some ol =>
+    cases ol with
+    | text tt => exact produceText_obs h lx tt
+    | comment _ | doctype _ | eof =>
+      dsimp only
+      rw [nonTagToToken_eq, nonTagToToken_eq, hfl']
+      cases hwH : ntWanted d.flags lx with
+      | true =>
+        have hwO := ntWanted_join (o' := o') hwH
+        simp only [hwO, if_true]
+        cases htok : ntTok inp lx with
+        | none => left; exact ⟨_, rfl⟩
+        | some t =>
+          simp only [Option.map_some]
+          obtain ⟨hw, _⟩ := ntTok_facts htok d.flags
+          rw [hwH] at hw
+          rcases emitToken_both (H := H) (o := o) (inp := inp) h lx.raw t hw with hp | ⟨e1, e2⟩
+          · exact Or.inl hp
+          · right
+            refine ⟨e1, fun a ha => ?_⟩
+            obtain ⟨r1, r2⟩ := e2 ha
+            have : (Disp.emitToken H d inp lx.raw t).1.flags = d.flags := congrArg DView.flags r2
+            unfold ObsR
+            rw [this]
+            rw [Flags.after_nt htok] at r1
+            exact r1
+      | false =>
+        simp only [Bool.false_eq_true, if_false]
+        cases hwO : ntWanted (d.flags.join o') lx with
+        | false => simp only [Bool.false_eq_true, if_false]; right; exact ⟨rfl, fun _ _ => h⟩
+        | true =>
+          simp only [if_true]
+          cases htok : ntTok inp lx with
+          | none => left; exact ⟨_, rfl⟩
+          | some t =>
+            simp only [Option.map_some]
+            obtain ⟨hw, hraw⟩ := ntTok_facts htok d.flags
+            rw [hwH] at hw
+            rcases emitToken_only (H := H) (o := o) (inp := inp) h lx.raw t hw hraw with hp | ⟨e1, e3, _⟩
+            · exact Or.inl hp
+            · right
+              exact ⟨e1, fun _ _ => e3⟩
+  | none =>
+    dsimp only
+    rw [nonTagToToken_eq, nonTagToToken_eq]
+    have e1 : ∀ g, ntWanted g lx = false := by intro g; unfold ntWanted; rw [hol]
+    simp only [e1, Bool.false_eq_true, if_false]
+    right; exact ⟨rfl, fun _ _ => h⟩
+
 end
 end LolHtml.Model
